@@ -989,6 +989,36 @@ struct Gen<'a> {
     r: Rng,
 }
 impl Gen<'_> {
+    /// A DB-side name for an EXTRA field / column: random identifiers, case variants of the struct's
+    /// own names (names are case sensitive), Rust identifiers of renamed / skipped fields; never
+    /// equal to a bound name or to a name in `taken` (duplicates are a separate phase).
+    fn extra_name(&mut self, sh: &Shape, taken: &[(String, String)]) -> String {
+        for _ in 0..50 {
+            let n: String = match self.r.below(8) {
+                0 | 1 if !sh.idents.is_empty() => self.r.pick(&sh.idents).clone(),
+                2 | 3 if !sh.bound.is_empty() => {
+                    let b = self.r.pick(&sh.bound).0.clone();
+                    match self.r.below(3) {
+                        0 => b.to_uppercase(),
+                        1 => format!("{b}_"),
+                        _ => format!("{b}{b}"),
+                    }
+                }
+                _ => {
+                    let len = self.r.range(1, 3) as usize;
+                    let mut t: String = (0..len).map(|_| (b'a' + self.r.below(26) as u8) as char).collect();
+                    if self.r.chance(1, 4) {
+                        t.push((b'0' + self.r.below(10) as u8) as char);
+                    }
+                    t
+                }
+            };
+            if !sh.bound.iter().any(|(m, _)| *m == n) && !taken.iter().any(|(m, _)| *m == n) {
+                return n;
+            }
+        }
+        "zz9".to_string()
+    }
     fn emit(&mut self, case: String) {
         let o = run_case(self.reg, &case);
         self.out.case(&case, &o);
@@ -1063,7 +1093,8 @@ impl Gen<'_> {
                 if mask.count_ones() <= 1 || thorough {
                     for pos in 0..=db.len() {
                         let mut d2 = db.clone();
-                        d2.insert(pos, ("zz".to_string(), self.r.pick(&["i", "t", "b"]).to_string()));
+                        let xn = self.extra_name(&sh, &db);
+                        d2.insert(pos, (xn, self.r.pick(&["i", "t", "b"]).to_string()));
                         self.cases_for_db(e, &sh, &d2, 1, false);
                     }
                 }
@@ -1074,8 +1105,10 @@ impl Gen<'_> {
             for p1 in 0..=k {
                 for p2 in p1..=k {
                     let mut d2 = o.clone();
-                    d2.insert(p2, ("yy".to_string(), "t".to_string()));
-                    d2.insert(p1, ("zz".to_string(), "i".to_string()));
+                    let x1 = self.extra_name(&sh, &d2);
+                    d2.insert(p2, (x1, "t".to_string()));
+                    let x2 = self.extra_name(&sh, &d2);
+                    d2.insert(p1, (x2, "i".to_string()));
                     self.cases_for_db(e, &sh, &d2, 1, false);
                 }
             }
